@@ -12,7 +12,7 @@ PROP = {'gen': ['base64'],
                'non-multiple-of-4 text is an error; no panic / termination for arbitrary bytes. Tables are regenerated from the source '
                'each run and the table lemmas re-checked; the model is tied to the code by a differential run that also observes the '
                'bytes delivered before an error (they must be a prefix of the decoding of the complete 4-character groups; checked '
-               'per case, no theorem).',
+               'per case, no theorem) and consumes one decoder in two steps (read, then read_to_end / bytes / take / read_exact).',
  'level_note': 'Trusted: Coq kernel + vm_compute; translate/tables.py; hand-written model validated by the correspondence run; reader '
                'contract (0 only at EOF); io errors outside the model. Defect found and fixed: short reads of the inner reader were '
                'treated as malformed input (fix d7fde13). No open known finding. No axioms (Print Assumptions: closed).',
